@@ -75,7 +75,15 @@ func suitableRef(srv *Server, desc *ua.BrowseDescription, ref *ua.ReferenceDescr
 		}
 		return false
 	}
-	if desc.NodeClassMask > 0 && desc.NodeClassMask&uint32(ref.NodeClass) == 0 {
+	// the mask applies to the class the target node has now; the class recorded when the
+	// reference was added is only used for targets outside this server's address space
+	nodeClass := ref.NodeClass
+	if ref.NodeID != nil {
+		if target := srv.Node(ref.NodeID.NodeID); target != nil {
+			nodeClass = target.NodeClass()
+		}
+	}
+	if desc.NodeClassMask > 0 && desc.NodeClassMask&uint32(nodeClass) == 0 {
 		if srv.cfg.logger != nil {
 			srv.cfg.logger.Debug("%v not suitable because of node class", ref)
 		}
